@@ -65,6 +65,46 @@ func DefaultOpts() GenOpts {
 		Spellings: []string{"lit", "lit", "lit", "top", "method", "funcvar", "callret", "imported", "generic", "pkgvar"}, ExtTypes: true}
 }
 
+// dupIn sometimes repeats one parameter type of a function: func(a T, b T, c U)
+// is legal (both parameters receive the value of T's one provider).
+//
+// When possible the repeated type is followed by a different type that is
+// assignable to it (every T, *T, N, S and G implements every I; T1 and the
+// unnamed struct X1 have identical underlying types): a generator that mixes
+// up the variables it passes then still emits code that compiles.
+func dupIn(t *rapid.T, in []rt.TypeRef) []rt.TypeRef {
+	if len(in) == 0 || !prob(t, "dupin", 0.25) {
+		return in
+	}
+	in = append([]rt.TypeRef{}, in...)
+	assignable := func(u, to rt.TypeRef) bool {
+		if to.K == "I" {
+			return u.K == "T" || u.K == "P" || u.K == "N" || u.K == "S" || u.K == "G"
+		}
+		return (to.K == "T" && to.I == 1 && u.K == "X" && u.I == 1) || (to.K == "X" && to.I == 1 && u.K == "T" && u.I == 1)
+	}
+	j := uniform(t, "dupat", len(in))
+	for a := range in {
+		for b := range in {
+			if a != b && assignable(in[b], in[a]) {
+				// order them as (.., in[a], in[b], ..)
+				x, y := in[a], in[b]
+				rest := []rt.TypeRef{}
+				for k, v := range in {
+					if k != a && k != b {
+						rest = append(rest, v)
+					}
+				}
+				in = append([]rt.TypeRef{x, y}, rest...)
+				j = 0
+			}
+		}
+	}
+	out := append([]rt.TypeRef{}, in[:j+1]...)
+	out = append(out, in[j])
+	return append(out, in[j+1:]...)
+}
+
 type typePool struct {
 	used map[string]bool
 	ext  bool
@@ -169,7 +209,7 @@ func GenFlow(t *rapid.T, name string, o GenOpts) *rt.Spec {
 		extOnly := sp == "imported"
 		ts := rt.TaskSpec{Unit: unit, Sp: sp}
 		unit++
-		ts.In = pickIn(3, extOnly)
+		ts.In = dupIn(t, pickIn(3, extOnly))
 		nout := []int{0, 1, 1, 1, 1, 1, 1, 2, 2, 3}[uniform(t, "nout", 10)]
 		if o.ModSubset && nout == 0 {
 			nout = 1 // cff.Invoke is a task option: outside the modifier-mode subset
@@ -190,7 +230,7 @@ func GenFlow(t *rapid.T, name string, o GenOpts) *rt.Spec {
 		if !o.ModSubset && prob(t, "pred", o.PPred) {
 			ps := &rt.PredSpec{Unit: unit, Sp: []string{"lit", "lit", "funcvar"}[uniform(t, "predsp", 3)]}
 			unit++
-			ps.In = pickIn(2, false)
+			ps.In = dupIn(t, pickIn(2, false))
 			ps.Ctx = prob(t, "predctx", 0.4)
 			ps.NamedBool = prob(t, "prednamedbool", o.PNamedBool)
 			ts.Pred = ps
